@@ -335,3 +335,59 @@ def nnf(test: ast.AST, neg: bool = False) -> str:
         return f"not ({t})" if neg else t
     t = norm(test)
     return f"not {t}" if neg else t
+
+
+def _quantified(test: ast.AST, pol: bool):
+    """Unfold `any(P for ..)` / `not all(P for ..)` in a controlling test: ([(target, iter)], [condition texts])."""
+    from .loader import dotted
+
+    t = test
+    while isinstance(t, ast.UnaryOp) and isinstance(t.op, ast.Not):
+        t, pol = t.operand, not pol
+    if isinstance(t, ast.NamedExpr):
+        t = t.value
+    if isinstance(t, ast.Call) and dotted(t.func) in ("any", "all") and t.args and isinstance(t.args[0], (ast.GeneratorExp, ast.ListComp)):
+        g = t.args[0]
+        is_any = dotted(t.func) == "any"
+        if is_any == pol:  # any(...) true / all(...) false: there is an element with P / not P
+            its = [(norm(c.target), c.iter) for c in g.generators]
+            conds = [nnf(g.elt, neg=not is_any)] + [nnf(i) for c in g.generators for i in c.ifs]
+            return its, conds
+    return [], [nnf(test, neg=not pol)]
+
+
+def rejections(cfg, fn_node: ast.AST, defs: Defs | None = None) -> list[dict]:
+    """Every `raise` of a function with the circumstances under which it is reached.
+
+    {'node': Raise, 'iters': [(target text, iter expr)], 'conds': [nnf condition text], 'dead': bool}
+    Conditions come from the branch decisions controlling the raise (early returns included), from `continue` guards and
+    from any()/all() quantifiers in those decisions; iteration domains from enclosing loops and from the quantifiers.
+    Local definitions are followed when `defs` is given.
+    """
+    par = {id(c): p for p in ast.walk(fn_node) for c in ast.iter_child_nodes(p)}
+    out = []
+    for n in cfg.nodes(lambda s: isinstance(s, ast.Raise)):
+        st = cfg.stmt[n]
+        iters: list[tuple[str, ast.AST]] = []
+        conds: list[str] = []
+        dead = False
+        x: ast.AST = st
+        while id(x) in par:
+            child, x = x, par[id(x)]
+            if isinstance(x, (ast.For, ast.AsyncFor)) and child in x.body:
+                iters.append((norm(x.target), x.iter))
+                # `if c: continue` guards before the statement in the loop body
+                for prev in x.body:
+                    if prev is child:
+                        break
+                    if isinstance(prev, ast.If) and prev.body and isinstance(prev.body[-1], ast.Continue) and not prev.orelse:
+                        conds.append(nnf(prev.test, neg=True))
+        for test, truth in cfg.controls(n):
+            t = defs.resolve(test) if defs is not None else test
+            its, cs = _quantified(t, truth)
+            iters += its
+            conds += cs
+            if isinstance(test, ast.Constant) and bool(test.value) != truth:
+                dead = True
+        out.append({"node": st, "iters": iters, "conds": conds, "dead": dead})
+    return out
